@@ -7,13 +7,15 @@ from vlib import hexd, frac, frac_of_hex, unhex
 EPS = 2.0 ** -52
 
 
-STYLES = ["dyadic", "full", "tinyscale", "singular", "scalar", "zeroF", "nonnormal", "symF", "diagF", "identityF", "orthF", "hugescale", "mixedscale", "neardup", "full"]
+STYLES = ["dyadic", "full", "tinyscale", "singular", "scalar", "zeroF", "nonnormal", "symF", "diagF", "identityF", "orthF", "hugescale", "mixedscale", "neardup", "full", "blockdup", "microscale", "bigdim"]
 
 
 def scale_of(r, style, which):
     """overall magnitude of a covariance: the property does not constrain scale"""
     if style == "tinyscale":
         return 10 ** r.uniform(-10, -4)
+    if style == "microscale":
+        return 10 ** r.uniform(-24, -13)       # every entry far below 1e-12 (Eigen's isZero() / isMuchSmallerThan defaults)
     if style == "hugescale":
         return 10 ** r.uniform(4, 10)
     if style == "mixedscale":
@@ -34,6 +36,16 @@ def gen_FQ(g, style, n):
             F = [[fs * x for x in row] for row in F]
     if style == "neardup":
         Q = g.spd(n, scale=10 ** r.uniform(-12, -9))      # small process noise: tiny directions of P stay visible
+    if style == "blockdup":
+        # block-diagonal system (leading block of size n1 at scale 1, trailing block at a scale 1e-13 .. 1e-20
+        # times smaller): F, Q block diagonal, so the blocks of F P F^T + Q decouple exactly
+        n1 = max(1, n // 2)
+        blk = lambda i, j: (i < n1) == (j < n1)
+        F = [[(F[i][j] if blk(i, j) else 0.0) for j in range(n)] for i in range(n)]
+        if r.random() < 0.3:
+            F = [[(F[i][j] if i == j else 0.0) for j in range(n)] for i in range(n)]
+        Q1, Q2 = g.spd(n1, scale=10 ** r.uniform(-3, 0)), g.spd(n - n1, scale=10 ** r.uniform(-26, -22))
+        Q = [[(Q1[i][j] if i < n1 and j < n1 else (Q2[i - n1][j - n1] if i >= n1 and j >= n1 else 0.0)) for j in range(n)] for i in range(n)]
     if style == "zeroF":
         F = [[0.0] * n for _ in range(n)]
     if style == "nonnormal":
@@ -72,13 +84,20 @@ def gen_case(g, tier, idx):
     big = 6 if tier == "quick" else 9
     style = STYLES[idx % len(STYLES)] if idx < 3 * len(STYLES) else r.choice(STYLES)
     n = 1 if style == "scalar" else (idx % big + 1 if idx < 4 * big else r.randint(1, big))
-    if style == "neardup":
+    if style in ("neardup", "blockdup"):
         n = max(n, 2)
-    exo = (idx % 2 == 0) if idx < 40 else (r.random() < 0.5)
+    bigdim = False
+    if style == "bigdim":
+        # Eigen switches product kernels with the size (coefficient-based lazy product below
+        # rows+cols+depth = 20, GEMM above): in-place / aliasing rewrites only show from n = 7..8 on
+        n = r.choice([7, 8, 9, 10, 12, 13, 16])
+        style = r.choice(["full", "dyadic", "nonnormal", "singular"])
+        bigdim = True
+    exo = (idx % 3) if idx < 40 else r.choice([0, 1, 2])     # 2: attached after the KFPrediction was constructed
     F, Q = gen_FQ(g, style, n)
     G, gv = (g.mat(n, n), g.vec(n)) if exo else (None, None)
     ncalls = r.choice([1, 1, 2, 3])
-    seq = ["kfpv", str(n), "1" if exo else "0", str(ncalls)]
+    seq = ["kfpv", str(n), str(exo), str(ncalls)]
     singles = []
     varied = nskip = handed = 0
     wmodes = {}
@@ -100,7 +119,7 @@ def gen_case(g, tier, idx):
         handed += (hand != 0)
         hist = skip_history(r, exo)
         nskip += len(hist)
-        k = r.choice([1, 1, 2, 3, 4, 6])
+        k = r.choice([1, 1, 2, 3, 4, 6]) if n <= 6 else r.choice([1, 2, 3])
         if style == "dyadic":
             Ps = [g.spd_dyadic(n) for _ in range(k)]
             means = [[g.dyadic(-4, 4, 3) for _ in range(n)] for _ in range(k)]
@@ -115,6 +134,20 @@ def gen_case(g, tier, idx):
                 l2[-1] = lam[-1] * (1.0 + t)
                 Ps.append(g.assemble(U, l2))
             means = [g.vec(n) for _ in range(k)]
+        elif style == "blockdup":
+            # consecutive components: same leading block (scale 1), trailing blocks that differ by O(1) relative
+            # to their own scale - equal for Eigen's isApprox (1e-12 relative to the whole matrix)
+            k = r.choice([2, 3, 4])
+            n1 = max(1, n // 2)
+            A = g.spd(n1, cond=10 ** r.uniform(0, 3), scale=10 ** r.uniform(-1, 1))
+            ts = 10 ** r.uniform(-20, -13)
+            Ps = []
+            for c2 in range(k):
+                B = g.spd(n - n1, cond=10 ** r.uniform(0, 3), scale=ts * r.choice([1.0, 2.0, 0.5, 3.0]))
+                Ps.append([[(A[i][j] if i < n1 and j < n1 else (B[i - n1][j - n1] if i >= n1 and j >= n1 else 0.0)) for j in range(n)] for i in range(n)])
+            means = [g.vec(n) for _ in range(k)]
+            if r.random() < 0.5:
+                means = [list(means[0][:n1]) + [ts ** 0.5 * v for v in mm_[n1:]] for mm_ in means]
         else:
             Ps = [g.spd(n, rank=(r.randint(0, n) if style == "singular" else None), scale=scale_of(r, style, "P")) for _ in range(k)]
             means = [g.vec(n) for _ in range(k)]
@@ -127,7 +160,7 @@ def gen_case(g, tier, idx):
         wmodes[wmode] = wmodes.get(wmode, 0) + 1
         seq += [str(hand)] + head + [str(len(hist))] + [str(x) for cmd in hist for x in cmd] + [str(wmode), str(k)] + toks
         singles.append(" ".join(["kfp", str(n), str(k), "1" if exo else "0"] + head + toks))
-    return " ".join(seq), singles, {"style": style, "n": n, "exo": exo, "calls": ncalls, "model_changes": varied, "skip_commands": nskip, "hand_overs": handed, "wmodes": wmodes}
+    return " ".join(seq), singles, {"style": style + ("@bigdim" if bigdim else ""), "n": n, "exo": exo, "calls": ncalls, "model_changes": varied, "skip_commands": nskip, "hand_overs": handed, "wmodes": wmodes}
 
 
 def split_seq_output(hout, ncalls):
@@ -196,6 +229,16 @@ def check_case(line, hout, dout, stats):
             probs.append(("corr", "model-vs-spec", "exact model output differs from F P F^T + Q / F m + u computed independently"))
         nP = vlib.fnorm(Ps[c]) * n
         tolP = 32 * EPS * (nF * nF * nP + vlib.fnorm(Q) + 1e-300) * n
+        # entrywise bound (a product of matrices is computed entry by entry: |fl((F P) F^T) - F P F^T| <= c n eps |F| |P| |F^T|,
+        # and |P_kl| <= d_k d_l for PSD P, d = sqrt(diag P)): keeps the check sensitive at the scale of a small block
+        # of a block-diagonal system, where a bound relative to the whole matrix hides O(1) errors of the block
+        dP = [abs(float(Ps[c][i][i])) ** 0.5 for i in range(n)]
+        fd = [sum(abs(float(F[i][l])) * dP[l] for l in range(n)) for i in range(n)]
+        tolE = [[64 * EPS * n * (fd[i] * fd[j] + abs(float(Q[i][j]))) + 1e-300 for j in range(n)] for i in range(n)]
+        gm = [sum(abs(float(F[i][l])) * abs(float(means[c][l])) for l in range(n)) for i in range(n)]
+        if exo:
+            gm = [gm[i] + sum(abs(float(G[i][l])) * abs(float(means[c][l])) for l in range(n)) + abs(float(gv[i])) for i in range(n)]
+        tolmE = [64 * EPS * n * gm[i] + 1e-300 for i in range(n)]
         nx = max([abs(float(v)) for v in means[c]] + [0.0])
         nG = (vlib.fnorm(G) * n if exo else 0.0)
         ng = (max(abs(float(v)) for v in gv) if exo else 0.0)
@@ -204,10 +247,14 @@ def check_case(line, hout, dout, stats):
         errm = max(abs(Fraction(cm[c][i]) - smean[i]) for i in range(n))
         stats["max_relerr_cov"] = max(stats.get("max_relerr_cov", 0.0), float(errP) / tolP)
         stats["max_relerr_mean"] = max(stats.get("max_relerr_mean", 0.0), float(errm) / tolm)
-        if errP > tolP:
-            probs.append(("prop", "cov-wrong", "component %d: predicted covariance is not F P F^T + Q: err %.3g tol %.3g" % (c, float(errP), tolP)))
-        if errm > tolm:
-            probs.append(("prop", "mean-wrong", "component %d: predicted mean is not F m + u: err %.3g tol %.3g" % (c, float(errm), tolm)))
+        relE = max(float(abs(Fraction(cP[c][i][j]) - spec[i][j])) / tolE[i][j] for i in range(n) for j in range(n))
+        relmE = max(float(abs(Fraction(cm[c][i]) - smean[i])) / tolmE[i] for i in range(n))
+        stats["max_relerr_cov_entrywise"] = max(stats.get("max_relerr_cov_entrywise", 0.0), relE)
+        stats["max_relerr_mean_entrywise"] = max(stats.get("max_relerr_mean_entrywise", 0.0), relmE)
+        if errP > tolP or relE > 1.0:
+            probs.append(("prop", "cov-wrong", "component %d: predicted covariance is not F P F^T + Q: err %.3g tol %.3g (entrywise %.3g of the bound)" % (c, float(errP), tolP, relE)))
+        if errm > tolm or relmE > 1.0:
+            probs.append(("prop", "mean-wrong", "component %d: predicted mean is not F m + u: err %.3g tol %.3g (entrywise %.3g of the bound)" % (c, float(errm), tolm, relmE)))
         asym = max(abs(cP[c][i][j] - cP[c][j][i]) for i in range(n) for j in range(n))
         if asym > 2 * tolP:
             probs.append(("prop", "cov-asymmetric", "component %d: predicted covariance asymmetric by %.3g" % (c, asym)))
@@ -224,7 +271,7 @@ def replay_case(path):
     t = line.split()
     if t[0] == "kfp":
         return (line, [line], {"style": "replay", "calls": 1})
-    n, exo = int(t[1]), t[2] == "1"
+    n, exo = int(t[1]), t[2] != "0"
     hl = 2 * n * n + ((n * n + n) if exo else 0)
     singles = []
     if t[0] == "kfpv":
@@ -258,8 +305,16 @@ def run(ctx):
     if corpus.exists():
         cases += [(ln.strip(), [ln.strip()], {"style": "corpus", "calls": 1}) for ln in corpus.read_text().split("\n") if ln.strip()]
     cases += [gen_case(g, ctx.tier, i) for i in range(N)]
+    hist_replay = None
     if ctx.replay:
-        cases = [replay_case(ctx.replay)]
+        import json
+        rl = json.load(open(ctx.replay))["replay"]["input_line"]
+        if rl.split()[0] in ("kfh", "kfht"):
+            from checks import kfhist
+            hist_replay = kfhist.parse_line(rl)
+            cases = []
+        else:
+            cases = [replay_case(ctx.replay)]
     hout, logs = vlib.run_harness(binary, [c[0] for c in cases])
     singles = [l for c in cases for l in c[1]]
     dout = vlib.run_driver(singles)
@@ -279,6 +334,13 @@ def run(ctx):
             for kind, key2, what in res:
                 (corr_bad if kind == "corr" else prop_bad).append((key2, what, hline, h))
             pos += 1
+    from checks import kfhist
+    hstats = {}
+    if not ctx.replay or hist_replay:
+        hists = [hist_replay] if hist_replay else [kfhist.gen_history(ctx.gen("kfh2"), i, ctx.tier, want_meas=(i % 2 == 0)) for i in range(ctx.n(20, 60))]
+        hp, hc, hstats = kfhist.run_histories(ctx, binary, hists, "C02")
+        prop_bad += hp
+        corr_bad += hc
     for key2, what, line, h in prop_bad[:20]:
         ctx.violation(key2, "KFPrediction: " + what, {"harness": "h_kf", "input_line": line, "observed": h[:2000]})
     if corr_bad and not prop_bad:
@@ -295,10 +357,10 @@ def run(ctx):
         "rule": "KFPrediction objects over a time-varying linear model (F, Q, exogenous law may change between calls) used for 1..3 successive predict() calls (new component count per call), each preceded by a skip-command history ending with nothing skipped; near-duplicate consecutive components (cond up to 1e14); n in 1..%d, k in {1,2,3,4,6}; arbitrary F incl. zero/"
                 "triangular/symmetric/diagonal/identity/orthogonal, PSD P and Q incl. singular, with/without exogenous model u = G x + g; "
                 "non-trivial = n > 1 or k > 1; distinct = distinct single-call inputs" % (6 if ctx.quick() else 9),
-        "samples": [cases[0][0][:400], cases[-1][0][:400]],
+        "samples": [c_[0][:400] for c_ in (cases[:1] + cases[-1:])] or ["(history replay)"],
         "input_weight_modes (0 default, 1 first zero, 2 last zero, 3 all zero, 4 un-normalised, 5 tiny, 6 one negative, 7 one-hot)": wm, "style_histogram": hist, "numeric": stats, "objects": len(cases),
         "traces_validated_against_impl": len(singles),
         "model_vs_impl_disagreements": len(corr_bad), "property_failures_on_impl": len(prop_bad),
-        "sanitizer_crashes": len(logs),
+        "sanitizer_crashes": len(logs), "filter_histories": hstats,
     })
     ctx.assumptions += ["floating point: implementation compared with exact rational F P F^T + Q within 32*eps*n*scale"]
